@@ -43,7 +43,8 @@ func (prop) Budget(tier string) int {
 
 func (prop) Describe() kernel.Description {
 	return kernel.Description{
-		Rule: "one run = one client.Runtime.Submit inside a synctest bubble against the simulated transport; the tape draws payload kind " +
+		Rule: "Dimensions added with the seed waves: caller contexts cancelled or expired before the call and deadlines later than the default timeout; failing sources with sentinel error values, reported once; a response-body read that fails once while the rest follows; response bodies of 300–700 KB; debug mode; an auth writer that inspects the request; a wire tier over a real http.Transport on net.Pipe. " +
+			"one run = one client.Runtime.Submit inside a synctest bubble against the simulated transport; the tape draws payload kind " +
 			"(none / JSON value / reader / read-closer / urlencoded or multipart fields / files / both), per-source chunking and one fault " +
 			"placement among: upload-source read error at an offset, params-writer error before/after SetFileParam, auth-writer error " +
 			"before/after GetBody, unparsable path pattern or base path, invalid method, transport error before/while/after the body, " +
